@@ -85,6 +85,12 @@ pub fn check_written(g: &NetInner, side: Side, role_is_server: bool, ordered_mes
                                 if role_is_server && id % 4 != 0 {
                                     return Err(format!("server sent GOAWAY({id}) which is not a client-initiated bidirectional stream id"));
                                 }
+                                // RFC 9114 5.2: "the identifier in each frame MUST NOT be greater than the identifier in any previous frame"
+                                if let Some(prev) = sum.goaways.last() {
+                                    if id > prev {
+                                        return Err(format!("GOAWAY({id}) sent after GOAWAY({prev}): the identifiers an endpoint sends must never increase"));
+                                    }
+                                }
                                 sum.goaways.push(*id);
                             }
                             Ev::MaxPushId(_) if !role_is_server => {}
